@@ -240,6 +240,7 @@ func sameKey(a, b ssa.Value) bool {
 }
 
 func runC12(w *World, r *Report) {
+	optionSemantics(w, r, "C12")
 	c12Gate(w, r)
 	c12Namespaces(w, r)
 	c12Live(w, r)
